@@ -3,7 +3,10 @@ import Casket.Model.Mitm
 import Casket.Model.Link
 import Casket.Model.FCGI
 import Casket.Spec.PeerBytes
+import Casket.Spec.Hello
 import Driver.Proto
+import Driver.C20
+import Casket.Model.Limits
 /-
 Streams of C19 (hex = hex-encoded bytes).
   c19.hello   hex                      out = info | PANIC:<class>
@@ -16,6 +19,7 @@ Streams of C19 (hex = hex-encoded bytes).
   c19.record  hex                      out = out=<hex>;err=<hex>;fin=<eof|ueof|badver>
   c19.pairs   klen vlen                out = ok:<wire length> | PANIC:<class>
   c19.explore …                        out = ok | PANIC  (no model: exploration of handler entry points)
+  c19.replacer  (fields of c20.replace)  out = hex of the expansion | PANIC | HANG  (model: slice C20's Replacer model)
   c19.handshake cuts uahex             out = same | differs:… | PANIC (no model: real crypto/tls handshakes, split vs unsplit)
   info  = v=<n>;cs=<list>;cm=<hex>;ex=<list>;cu=<list>;pt=<hex>     "-" = nothing recorded
 -/
@@ -39,6 +43,31 @@ def observed (out : String) : R String :=
   else .ok out
 
 def judgeTotal (_ : List String) (out : String) : String := totalVerdict (observed out)
+
+/-- the canonical rendering read back -/
+def parseInfo (s : String) : Option Info :=
+  match s.splitOn ";" with
+  | [v, cs, cm, ex, cu, pt] =>
+    let fld (pre : String) (x : String) : Option String :=
+      if x.startsWith pre then some (x.drop pre.length).toString else none
+    do
+      let v ← (← fld "v=" v).toNat?
+      let cs ← Driver.natList (← fld "cs=" cs)
+      let cm ← Driver.unhex (← fld "cm=" cm)
+      let ex ← Driver.natList (← fld "ex=" ex)
+      let cu ← Driver.natList (← fld "cu=" cu)
+      let pt ← Driver.unhex (← fld "pt=" pt)
+      pure { version := v, ciphers := cs, compression := cm, extensions := ex, curves := cu, points := pt }
+  | _ => none
+
+/-- no panic, and for a well-formed ClientHello exactly its reference reading -/
+def helloJudge (f : List String) (out : String) : String :=
+  if out.startsWith "PANIC" then totalVerdict (observed out) else
+  match f with
+  | [h] => match Driver.unhex h with
+    | some bs => Casket.HelloSpec.skewVerdict bs (parseInfo out)
+    | none => "bad:unparsable:case"
+  | _ => "bad:unparsable:case"
 
 def helloModel : List String → String
   | [h] => match Driver.unhex h with
@@ -79,9 +108,16 @@ def segModel : List String → String
     | _, _ => "bad-case"
   | _ => "bad-case"
 
-def segJudge (_ : List String) (out : String) : String :=
+def segJudge (f : List String) (out : String) : String :=
   match out.splitOn "\t" with
-  | [a, b] => segVerdict (observed a) (observed b)
+  | [a, b] =>
+    let v := segVerdict (observed a) (observed b)
+    if v != "ok" then v else
+    match f with
+    | stream :: _ => match Driver.unhex stream with
+      | some bs => Casket.HelloSpec.recordedVerdict bs (if b == "-" then none else parseInfo b)
+      | none => "bad:unparsable:case"
+    | _ => "bad:unparsable:case"
   | _ => totalVerdict (observed out)
 
 def showVerdict : R Verdict → String
@@ -172,8 +208,16 @@ def pairsModel : List String → String
     | _, _ => "bad-case"
   | _ => "bad-case"
 
+/-- c19.matches  cs pathhex basehex : `httpserver.Path(path).Matches(base)` on hostile request paths;
+model = slice C17's `Limits.pathMatches` (ASCII case folding: non-ASCII bytes only with cs = 1) -/
+def matchesModel : List String → String
+  | [cs, p, b] => match Driver.unhex p, Driver.unhex b with
+    | some p, some b => if Casket.Limits.pathMatches (cs == "1") p b then "1" else "0"
+    | _, _ => "bad-case"
+  | _ => "bad-case"
+
 def streams : List Driver.Stream := [
-  { name := "c19.hello", model := helloModel, judge := judgeTotal },
+  { name := "c19.hello", model := helloModel, judge := helloJudge },
   { name := "c19.looks", model := looksModel, judge := looksJudge },
   { name := "c19.seg", model := segModel, judge := segJudge },
   { name := "c19.mitm", model := mitmModel, judge := judgeTotal },
@@ -183,6 +227,11 @@ def streams : List Driver.Stream := [
   { name := "c19.record", model := recordModel, judge := judgeTotal },
   { name := "c19.pairs", model := pairsModel, judge := judgeTotal },
   { name := "c19.explore", model := fun _ => "ok", judge := judgeTotal },
+  { name := "c19.matches", model := matchesModel, judge := judgeTotal },
+  -- the Replacer over hostile request text: slice C20's model and evaluator, judged for panics / hangs
+  { name := "c19.replacer", model := Driver.C20.replaceModel,
+    judge := fun _ out => if out == "PANIC" || out.startsWith "PANIC" then "bad:panic:Replace panicked"
+      else if out == "HANG" then "bad:panic:Replace did not return" else "ok" },
   { name := "c19.handshake", model := fun _ => "same",
     judge := fun _ out => if out == "same" then "ok"
       else if out.startsWith "PANIC" then totalVerdict (observed out)
